@@ -232,7 +232,9 @@ def h_pq_seq(env, circuits, label):
 
 def h_pq_width(env):
     """idle top qubits: the text carries Allocate lines for every qubit of the register"""
-    for specs, nq in ([[("H", 0, None, None)], 3], [[("RX", 1, None, 0.25), ("CNOT", 0, (1,), None)], 5], [[("X", 2, None, None)], 12]):
+    for specs, nq in ([[("H", 0, None, None)], 3], [[("RX", 1, None, 0.25), ("CNOT", 0, (1,), None)], 5], [[("X", 2, None, None)], 12],
+                      [[("CNOT", 11, (3,), None), ("H", 10, None, None)], 12], [[("X", 9, None, None)], 11], [[("H", 0, None, None)], 100],
+                      [[("RZ", 57, None, -1.5)], 101]):
         pq_roundtrip(env, specs, nq, "projectq round trip: width with idle top qubits")
 
 
